@@ -160,6 +160,10 @@ STD_INTS = (0, 1, -1, -2 ** 31, 2 ** 31 - 1, 2 ** 32 - 1, -2 ** 63, 2 ** 63 - 1,
 UNITS = ("mm", "cm", "in", "pt", "pc", "pi")
 SENTINEL = "é~ z{"
 FREE_POOL = ["", "wd2", "en-029"]
+# classes whose validate() states no numeric range of its own but hands the range check to another class: for these
+# the schema range is the reference of the rejects-valid rule (a wrong delegate narrows the accepted range silently)
+DELEGATING_RANGE_CLASSES = {"ST_Coordinate": (-27273042329600, 27273042316900), "ST_Coordinate32": (-2147483648, 2147483647)}
+
 HEX_POOL = ["FFFFFF", "ffffff", "00ff00", "0A1B2C"]
 LEX_EXTRA = ["application/xml", "image/png", 'text/xml; charset="utf-8"',
              "application/vnd.openxmlformats-officedocument.presentationml.slide+xml",
@@ -169,6 +173,8 @@ STRING_POOL = [
     "", "1", "a", "a b", "wd2", "en-029", "Arial",
     "FFFFFF", "ffffff", "00ff00", "FFFFF", "FFFFFFF", "GGGGGG", "+12345", "-12345", "0x1234", " 12345",
     "1_2345", "12 345",
+    # digits that are decimal digits to Python (str.isdigit, \\d, int()) but not to XML Schema: full-width, Arabic-Indic
+    "\uff11\uff12\uff13\uff14\uff15\uff16", "AB\uff10\uff10CD", "\u0661\u0662\u0663\u0664\u0665\u0666", "\uff11",
     "application/xml", "image/png", "image", "a b/c", "xml", ".xml", "x;y",
     "rId1", "1rId", "r:Id", "_x",
     "/ppt/slides/slide1.xml", "../x.xml", "http://example.com/a", "http://example.com/a b", "%zz",
@@ -790,6 +796,10 @@ class Model:
         """True if v lies inside the class's own enforced range AND its reference lexical form is valid for ALL
         `types`: such a value may not be rejected (rule rejects-valid)."""
         rng = self.own_range(name)
+        if rng is None and name in DELEGATING_RANGE_CLASSES:
+            # the class states no range of its own (it delegates the check): the numeric range of its schema type
+            # (ST_CoordinateUnqualified / ST_Coordinate32Unqualified, ISO 29500-1 20.1.10.16-19) is its range
+            rng = DELEGATING_RANGE_CLASSES[name]
         if rng is None or type(v) not in (int, float) or not (rng[0] <= v <= rng[1]) or not types:
             return False
         scale = SCALE.get(name, 1.0)
